@@ -110,22 +110,28 @@ var lastRaw *rawPanic
 var debugOn = os.Getenv("C11_DEBUG") != ""
 
 func gnoSite(stack string) string {
-	// first gno frame below the runtime panic frames
-	seenPanic := false
+	// The ORIGINAL panic site: the first gno frame below the deepest panic( frame (re-panics from deferred
+	// recover-and-rethrow handlers such as Machine.runOnce sit above it on the same stack).
+	site := "?"
+	armed := false
 	for _, ln := range strings.Split(stack, "\n") {
-		if strings.HasPrefix(ln, "panic(") || strings.HasPrefix(ln, "runtime.") {
-			seenPanic = true
+		if strings.HasPrefix(ln, "panic(") {
+			armed = true
 			continue
 		}
-		if seenPanic && strings.HasPrefix(ln, "github.com/gnolang/gno/") && !strings.Contains(ln, "doRecover") && !strings.Contains(ln, "VerifRecoverHook") {
+		if strings.HasPrefix(ln, "runtime.") || strings.HasPrefix(ln, "\t") {
+			continue
+		}
+		if armed && (strings.HasPrefix(ln, "github.com/gnolang/gno/") || strings.HasPrefix(ln, "go/")) {
 			fn := strings.TrimPrefix(ln, "github.com/gnolang/gno/")
 			if i := strings.LastIndex(fn, "("); i > 0 {
 				fn = fn[:i]
 			}
-			return fn
+			site = fn
+			armed = false
 		}
 	}
-	return "?"
+	return site
 }
 
 func shortMsg(v any) string {
@@ -292,6 +298,11 @@ func workerMain() {
 			continue
 		}
 		for i := from; i < to; i++ {
+			if only := os.Getenv("C11_ONLY"); only != "" {
+				if lf, ok := f.(*lazyFamily); ok && !strings.Contains(lf.ids[i], only) {
+					continue
+				}
+			}
 			c := f.Case(i)
 			if only := os.Getenv("C11_ONLY"); only != "" && !strings.Contains(c.ID, only) {
 				continue
